@@ -53,6 +53,38 @@ def run(ctx, pid=None):
         for k in range(1, 4):
             runs.append(one_run(ctx, ctx.seed * 1000 + k, n // 3, "extra%d" % k, corpus=False))
     runs = [r for r in runs if r]
+    # side engines: calendar validation (C01/C02: the order on civil tuples is the order on instants) and purity (C06)
+    from . import generic
+    side = []
+    if pid in ("C01", "C02"):
+        side.append(("cal", generic.engine_run(ctx, "cal", ["--seed", str(ctx.seed), "--stride", "1"], "cal")))
+    if pid == "C06":
+        side.append(("pure", generic.engine_run(ctx, "pure", ["--seed", str(ctx.seed), "--n", "300" if not ctx.thorough else "3000"], "pure")))
+        if ctx.thorough:
+            rc, out = common.sh(["go", "build", "-race", "-o", common.BIN + "/qh_race", "./cmd/qh"], cwd=os.path.join(common.VERIF, "harness"),
+                                env=dict(common.GOENV, CGO_ENABLED="1"), timeout=900)
+            if rc == 0:
+                d = os.path.join(ctx.dir, "pure_race")
+                os.makedirs(d, exist_ok=True)
+                rc, out = common.sh([common.BIN + "/qh_race", "pure", "--seed", str(ctx.seed), "--n", "400", "--out", d], timeout=1800)
+                ctx.coverage["race_detector_run"] = {"exit": rc, "tail": out[-300:]}
+                if rc != 0 or "DATA RACE" in out:
+                    common.report_violation(ctx, "C06 data race or failure while hammering one CronTrigger from 16 goroutines under -race: " + out[-600:],
+                                            {"engine": "pure -race", "log": out[-4000:]})
+            else:
+                ctx.coverage["race_detector_run"] = {"skipped": "go build -race failed: " + out[-200:]}
+    for name, r in side:
+        if r.get("failed"):
+            common.report_violation(ctx, "side engine %s failed: %s" % (name, r.get("log", "")[-400:]), {"engine": name}, no_input=True)
+            continue
+        for v in r["stats"].get("violations", []):
+            common.report_violation(ctx, v, {"engine": name, "what": v})
+        if r.get("diffs"):
+            i = r["diffs"][0]
+            common.report_violation(ctx, "the Lean calendar disagrees with Go's time package on %d instants, first: %s go=%s lean=%s" % (
+                len(r["diffs"]), r["ops"][i], r["impl"][i], r["model"][i]), {"engine": name, "op": r["ops"][i], "impl": r["impl"][i], "model": r["model"][i]}, no_input=True)
+        ctx.coverage["side_" + name] = {"evaluations": r["stats"].get("evaluations"), "exhaustive": r["stats"].get("exhaustive", False),
+                                         "disagreements": len(r.get("diffs", []))}
     tie_broken = []       # (case, model answer, op)
     concrete = []
     evals = nontrivial = 0
